@@ -1,0 +1,133 @@
+//go:build verif
+
+// Contracts for package httpscenario (HTTP scenario gun), checked by /verif/govc. Comment-only: no code.
+package httpscenario
+
+// Scenario components are read-only users of the response and of the variables they are given.
+//@ iface Postprocessor.Process
+//@ modifies nothing
+//@ iface Preprocessor.Process
+//@ modifies nothing
+//@ iface Templater.Apply
+//@ modifies request.URL, request.Method, request.Body, request.Headers, elems(request.Headers)
+//@ iface SourceStorage.Variables
+//@ modifies nothing
+
+// A step's header set handed to the templater is a private copy: rendering never writes into the scenario definition.
+//@ func (r *Request) GetHeaders
+//@ props C11 C15
+//@ modifies nothing
+//@ loop 0 invariant result != nil && fresh(result) && result != r.Headers
+//@ ensures [private-copy] result != nil && fresh(result) && result != r.Headers
+
+//@ func (r *Request) GetBody
+//@ props C15
+//@ nilsafe
+//@ modifies nothing
+//@ ensures imp(r.Body == nil, result == nil) && imp(r.Body != nil, len(result) == len(*r.Body))
+
+// Clones share the (read-only) request list and the variable storage; everything else is per clone.
+//@ func (a *Scenario) Clone
+//@ props C11
+//@ modifies nothing
+//@ ensures typeis(result, *Scenario) && fresh(result.(*Scenario)) && result.(*Scenario).Requests == a.Requests && result.(*Scenario).Name == a.Name && result.(*Scenario).MinWaitingTime == a.MinWaitingTime && result.(*Scenario).VariableStorage == a.VariableStorage
+
+// A failed step is reported once, as a failure: code 0, the error attached.
+//@ func (g *ScenarioGun) reportErr
+//@ props C10 C15 C19
+//@ nilsafe
+//@ requires g.base != nil && g.base.Aggregator != nil && sample != nil
+//@ ensures [nothing-to-report-without-an-error] imp(err == nil, ev(report) == old(ev(report)))
+//@ ensures [failure-sample] imp(err != nil, ev(report) == old(ev(report)) + 1 && sample.err == err && sample.fields[9] == 0)
+//@ at call g.base.Aggregator.Report assert [the-step-sample] arg(a0) == sample
+//@ modifies ev(report), sample.tags, sample.err, sample.fields
+
+// The request sent for a step: rendered method, URL, body and headers; the gun's target, scheme and default host.
+//@ func (g *ScenarioGun) prepareRequest
+//@ props C09 C15
+//@ nilsafe
+//@ requires g.base != nil
+//@ modifies nothing
+//@ ensures imp(result1 == nil, fresh(result0) && result0.URL != nil)
+//@ at call http.NewRequest assert [rendered-method-url-body] arg(a0) == reqParts.Method && arg(a1) == reqParts.URL && iff(reqParts.Body == nil, arg(a2) == nil)
+//@ at call req.Header.Set assert [rendered-headers] arg(a0) == k && arg(a1) == v
+//@ ensures [scheme-follows-the-ssl-option] imp(result1 == nil, result0.URL.Scheme == ite(g.base.Config.SSL, "https", "http"))
+//@ ensures [connection-goes-to-the-gun-target] imp(result1 == nil, result0.URL.Host == g.base.Config.TargetResolved)
+//@ ensures [the-request-built] imp(result1 == nil, result0 == result_of(http.NewRequest, 0) && result0 != nil)
+//@ ensures [bad-request-is-an-error] imp(result_of(http.NewRequest, 1) != nil, result1 != nil && result0 == nil)
+
+// A well-formed scenario: every step has a templater and its processors are not nil (established by the scenario decoder).
+//@ spec func wfRequest(r Request) bool = r.Templater != nil && forall(k, 0, len(r.Postprocessors), r.Postprocessors[k] != nil)
+//@ spec func wfScenario(a *Scenario) bool = a != nil && forall(j, 0, len(a.Requests), wfRequest(a.Requests[j]))
+
+// Tracing and logging helpers touch the sample's numeric fields and re-attach body copies; nothing else.
+//@ func (g *ScenarioGun) initTracing
+//@ props C19
+//@ nilsafe
+//@ requires g.base != nil && req != nil && sample != nil
+//@ ensures result1 != nil && result1.URL == req.URL && imp(result1 != req, fresh(result1))
+//@ modifies sample.fields, req.Body
+
+//@ func (g *ScenarioGun) saveTrace
+//@ props C19
+//@ nilsafe
+//@ requires g.base != nil && sample != nil
+//@ ensures iff(resp != nil && old(resp.Body) == nil, resp != nil && resp.Body == nil) && sample.fields[9] == old(sample.fields)[9] && sample.fields[8] == old(sample.fields)[8]
+//@ modifies sample.fields, resp.Body
+
+//@ func (g *ScenarioGun) verboseLogging
+//@ trusted
+//@ modifies nothing
+//@ func (g *ScenarioGun) answReqRespLogging
+//@ trusted
+//@ modifies nothing
+//@ func (g *ScenarioGun) buildLogID
+//@ trusted
+//@ modifies *idBuilder
+
+// One step: preprocess, render, send, postprocess in the listed order; a failure anywhere ends the step with an error and
+// without a sample (the caller reports it); success reports exactly one sample carrying the status received.
+//@ func (g *ScenarioGun) shootStep
+//@ props C10 C15 C19 C11
+//@ nilsafe
+//@ requires g.base != nil && g.base.Aggregator != nil && g.base.Client != nil && sample != nil && wfRequest(step) && requestVars != nil
+//@ modifies ev(report), ev(closer_close), sample.tags, sample.err, sample.fields, elems(requestVars)
+//@ loop 0 invariant [no-postprocessor-failed-so-far] imp(calls(postprocessor.Process) > 0, result_of(postprocessor.Process, 1) == nil) && resp != nil && imp(len(processors) > 0, respBody != nil) && postprocessorVars != nil
+//@ loop 0 invariant [postprocessors-in-the-listed-order] calls(postprocessor.Process) == rangeidx && processors == step.Postprocessors
+//@ loop 0 invariant ev(report) == old(ev(report)) && resp == result_of(g.base.Client.Do, 0) && calls(g.base.Client.Do) == 1 && result_of(g.base.Client.Do, 1) == nil
+//@ loop 1 invariant postprocessorVars != nil
+//@ ensures [one-sample-per-successful-step] imp(result == nil, ev(report) == old(ev(report)) + 1)
+//@ ensures [a-failed-step-leaves-the-report-to-the-caller] imp(result != nil, ev(report) == old(ev(report)))
+//@ ensures [preprocessor-failure-fails-the-step] imp(step.Preprocessor != nil && result_of(step.Preprocessor.Process, 1) != nil, result != nil && calls(g.base.Client.Do) == 0)
+//@ ensures [template-failure-fails-the-step] imp(calls(step.Templater.Apply) == 1 && result_of(step.Templater.Apply, 0) != nil, result != nil && calls(g.base.Client.Do) == 0)
+//@ ensures [transport-failure-fails-the-step] imp(calls(g.base.Client.Do) == 1 && result_of(g.base.Client.Do, 1) != nil, result != nil)
+//@ ensures [postprocessor-failure-fails-the-step] imp(calls(postprocessor.Process) > 0 && result_of(postprocessor.Process, 1) != nil, result != nil)
+//@ ensures [all-postprocessors-run-on-success] imp(result == nil, calls(postprocessor.Process) == len(step.Postprocessors))
+//@ at call step.Templater.Apply assert [parts-from-the-step-definition] reqParts.URL == step.URI && reqParts.Method == step.Method && reqParts.Headers == result_of(step.GetHeaders, 0) && arg(scenarioName) == ammoName && arg(stepName) == step.Name
+//@ at call step.Templater.Apply assert [variables-of-this-shot] arg(variables) == templateVars
+//@ at call g.prepareRequest assert [the-rendered-parts] arg(reqParts) == reqParts
+//@ at call sample.SetProtoCode assert [code-is-the-status-received] arg(code) == result_of(g.base.Client.Do, 0).StatusCode
+//@ at call g.base.Aggregator.Report assert [the-step-sample] arg(a0) == sample
+//@ at call postprocessor.Process assert [postprocessors-see-the-response] arg(resp) == result_of(g.base.Client.Do, 0)
+
+// A shot: the steps in the listed order, one sample per executed step tagged <scenario>.<step>, stop at the first failure.
+//@ func (g *ScenarioGun) shoot
+//@ props C10 C15 C19
+//@ nilsafe
+//@ requires wfScenario(ammo) && g.base != nil && g.base.Aggregator != nil && g.base.Client != nil
+//@ modifies ev(report), ev(closer_close), elems(templateVars)
+//@ loop 0 invariant [steps-executed-so-far-succeeded] calls(g.shootStep) == rangeidx && imp(rangeidx > 0, result_of(g.shootStep, 0) == nil) && templateVars != nil
+//@ loop 0 invariant [one-sample-per-executed-step] ev(report) == old(ev(report)) + rangeidx && calls(g.reportErr) == 0
+//@ at call netsample.Acquire assert [sample-tag-is-scenario-dot-step] arg(tag) == ammo.Name + "." + req.Name
+//@ at call g.shootStep assert [the-next-listed-step-with-its-own-sample] arg(step) == req && arg(sample) == result_of(netsample.Acquire, 0) && arg(ammoName) == ammo.Name
+//@ at call g.reportErr assert [the-failed-step-is-reported] arg(sample) == result_of(netsample.Acquire, 0) && arg(err) == result_of(g.shootStep, 0)
+//@ ensures [all-steps-on-success] imp(result == nil, calls(g.shootStep) == len(ammo.Requests))
+//@ ensures [stops-at-the-first-failed-step] imp(result != nil, result == result_of(g.shootStep, 0) && calls(g.reportErr) == 1)
+//@ ensures [one-sample-per-executed-step] ev(report) == old(ev(report)) + calls(g.shootStep)
+
+//@ func (g *ScenarioGun) Shoot
+//@ props C10 C15 C19
+//@ nilsafe
+//@ requires wfScenario(ammo) && g.base != nil && g.base.Client != nil && ammo.VariableStorage != nil
+//@ may_panic g.base.Aggregator == nil
+//@ at call g.shoot assert [the-ammo-with-its-source-variables] arg(ammo) == ammo0
